@@ -11,6 +11,8 @@
 //!           | `O` (#pragma once) | `W` (#pragma warning, a directive without effect) | `T toks` (text line)
 //!   toks  : space separated: `~` one blank, `(` `)` `,` `##`, identifiers, decimal integers, `+ - * ; = { }`
 //!   a file entry `name>real|...` is served by the include handler under the real name `real` (alias)
+//! request : C12.limit \t <api> \t <file> ...   the same program, run in a child process under `ulimit -v 2000000` and
+//!           `timeout 60` (resource test, not compared with the model); observe: `tokens <n>` | `resource-exhausted`
 //! observe : `ok <token spellings separated by blanks>` | `err <PreprocessError variant>` | `panic <file>: <message>`
 use crate::util::*;
 use std::collections::{BTreeMap, BTreeSet};
@@ -168,7 +170,7 @@ impl Program {
 
     fn decode(req: &str) -> Option<Program> {
         let f: Vec<&str> = req.split('\t').collect();
-        if f.len() < 3 || f[0] != "C12.run" {
+        if f.len() < 3 || (f[0] != "C12.run" && f[0] != "C12.limit") {
             return None;
         }
         let mut api = Vec::new();
@@ -534,6 +536,7 @@ struct RefNotes {
     /// a painted function-like macro name was followed by `(` (C leaves it alone for good)
     painted_call: bool,
     steps: u64,
+    step_limit: Option<u64>,
 }
 
 struct Reference<'a> {
@@ -643,7 +646,7 @@ impl<'a> Reference<'a> {
 
     fn tick(&mut self) -> Result<(), RefErr> {
         self.notes.steps += 1;
-        if self.notes.steps > 200_000 {
+        if self.notes.steps > self.notes.step_limit.unwrap_or(200_000) {
             Err(RefErr::Steps)
         } else {
             Ok(())
@@ -1407,10 +1410,28 @@ fn generate(rng: &mut Rng, hist: &mut Hist) -> Vec<Program> {
 
 fn judge(p: &Program, out: &mut Out, hist: &mut Hist) {
     let req = p.encode();
+    if std::env::var("C12_TRACE").is_ok() {
+        eprintln!("TRACE {}", req);
+    }
     if let Err(why) = program_faithful(p) {
         hist.add("skip:unfaithful-rendering");
         out.case(&req, "-", &format!("SKIP:{}", why));
         return;
+    }
+    // Without persistent paint (deviation `argument-repainted`) some small programs expand to millions of tokens
+    // in the real code (and in the model, which mirrors it): predict that with the reference run in RSSL-like mode
+    // under a small budget and do not run such a program in-process.
+    {
+        let mut n0 = RefNotes { step_limit: Some(40_000), ..RefNotes::default() };
+        let r0 = run_reference(p, Dev::from_bits(8 | 16), &mut n0);
+        let big = matches!(&r0, Ok(t) if t.len() > 6000);
+        if matches!(r0, Err(RefErr::Steps)) || big {
+            hist.add("not-run:expansion-explodes-without-persistent-paint");
+            if std::env::var("C12_TRACE").is_ok() {
+                eprintln!("EXPLODES {}", req);
+            }
+            return;
+        }
     }
     let real = run_real(p);
     let obs = match &real {
@@ -1478,9 +1499,22 @@ fn judge(p: &Program, out: &mut Out, hist: &mut Hist) {
                     best = Some(bits);
                 }
             }
+            // an unused argument that RSSL expands anyway may itself need a placemarker / meet a painted name
+            let mut ne = RefNotes::default();
+            let _ = run_reference(p, Dev::from_bits(8), &mut ne);
             if let Some(b) = best {
                 class = Dev::names(b);
-            } else if notes.painted_call {
+            } else if notes.painted_call || ne.painted_call {
+                // C never expands a painted name again; RSSL only remembers the macro it applied last
+                // (`last_macro_function_index`) and re-enables everything else once a body has been rescanned
+                class = if notes.painted_call {
+                    "painted-function-name-reinvoked".to_string()
+                } else {
+                    format!("{}+painted-function-name-reinvoked", DEV_NAMES[3])
+                };
+            } else if !notes.used_placemarker && ne.used_placemarker {
+                class = format!("{}+{}", DEV_NAMES[1], DEV_NAMES[3]);
+            } else if false {
                 // C never expands a painted name again; RSSL only remembers the macro it applied last
                 // (`last_macro_function_index`) and re-enables everything else once a body has been rescanned
                 class = "painted-function-name-reinvoked".to_string();
@@ -1523,10 +1557,77 @@ fn judge(p: &Program, out: &mut Out, hist: &mut Hist) {
     out.case(&req, &obs, &oracle);
 }
 
+/// resource test: the real code in a child process with bounded memory and time
+fn judge_limit(line: &str, p: &Program, out: &mut Out, hist: &mut Hist) {
+    if let Err(why) = program_faithful(p) {
+        out.case(line, "-", &format!("SKIP:{}", why));
+        return;
+    }
+    let exe = std::env::current_exe().map(|e| e.display().to_string()).unwrap_or_else(|_| "harness".into());
+    let tmp = std::env::temp_dir().join(format!("c12-limit-{}.txt", std::process::id()));
+    let _ = std::fs::write(&tmp, format!("{}\n", p.encode()));
+    let res = std::process::Command::new("sh")
+        .arg("-c")
+        .arg(format!("ulimit -v 2000000; exec timeout 60 {} c12 --requests {}", exe, tmp.display()))
+        .env("C12_CHILD", "1")
+        .output();
+    let _ = std::fs::remove_file(&tmp);
+    let text = res.as_ref().map(|o| String::from_utf8_lossy(&o.stdout).to_string()).unwrap_or_default();
+    let count: Option<u64> = text.lines().find_map(|l| l.strip_prefix("COUNT ")).and_then(|n| n.trim().parse().ok());
+    let mut notes = RefNotes::default();
+    let expected = run_reference(p, Dev::default(), &mut notes);
+    let n_c = match &expected {
+        Ok(t) => t.len() as u64,
+        Err(_) => 0,
+    };
+    let obs = match count {
+        Some(n) => format!("tokens {}", n),
+        None => "resource-exhausted".to_string(),
+    };
+    let blown = match count {
+        Some(n) => n > 1000 * n_c.max(1),
+        None => true,
+    };
+    if blown && expected.is_ok() {
+        hist.add("limit:blow-up");
+        out.case(
+            line,
+            &obs,
+            &format!(
+                "FAIL:differs-from-C[expansion-explodes-without-persistent-paint] C yields {} tokens, the real code: {}",
+                n_c, obs
+            ),
+        );
+    } else {
+        hist.add("limit:fine");
+        out.case(line, &obs, "ok");
+    }
+}
+
 pub fn run(args: &Args, out: &mut Out) {
     let mut hist = Hist::default();
+    if std::env::var("C12_CHILD").is_ok() {
+        // child of a resource test: run the real code only and report the size of its output
+        for line in args.request_lines().unwrap_or_default() {
+            if let Some(p) = Program::decode(&line) {
+                match run_real(&p) {
+                    Real::Ok(t) => println!("COUNT {}", t.len()),
+                    Real::Err(e) => println!("ERR {}", e),
+                    Real::Panic(m) => println!("PANIC {}", m),
+                }
+            }
+        }
+        return;
+    }
     if let Some(lines) = args.request_lines() {
         for line in lines {
+            if line.starts_with("C12.limit\t") {
+                match Program::decode(&line) {
+                    Some(p) if !p.files.is_empty() => judge_limit(&line, &p, out, &mut hist),
+                    _ => out.case(&line, "-", "SKIP:bad-request"),
+                }
+                continue;
+            }
             match Program::decode(&line) {
                 Some(p) if !p.files.is_empty() => judge(&p, out, &mut hist),
                 _ => out.case(&line, "-", "SKIP:bad-request"),
